@@ -15,6 +15,7 @@ import (
 
 type histProfile struct {
 	wLint, wRepeat, wFilter, wSetCfg, wRead, wPattern, wDefaultCfg int
+	regP                                                         float64 // share of runs in which late probes are registered mid-history
 	cfgClasses                                                   []string
 	cfgMin, cfgMax                                               int
 	mutShare                                                     []float64
@@ -27,21 +28,21 @@ func profileFor(prop string) histProfile {
 	switch prop {
 	case "C07":
 		return histProfile{wLint: 30, wRepeat: 0, wFilter: 30, wSetCfg: 8, wRead: 2, wPattern: 35, wDefaultCfg: 0,
-			cfgClasses: []string{"neutral", "option", "option", "illtyped"}, cfgMin: 0, cfgMax: 2, mutShare: []float64{0, 0.1, 0.3}, crlP: 0.3, ocspP: 0.15, errFilterP: 0.03, synthP: 0.3}
+			cfgClasses: []string{"neutral", "option", "option", "illtyped"}, cfgMin: 0, cfgMax: 2, mutShare: []float64{0, 0.1, 0.3}, crlP: 0.3, ocspP: 0.15, errFilterP: 0.03, synthP: 0.3, regP: 0.3}
 	case "C08":
 		return histProfile{wLint: 10, wRepeat: 0, wFilter: 45, wSetCfg: 12, wRead: 25, wPattern: 8, wDefaultCfg: 0,
-			cfgClasses: []string{"neutral", "option", "empty"}, cfgMin: 1, cfgMax: 3, mutShare: []float64{0}, crlP: 0.3, ocspP: 0.2, errFilterP: 0.25}
+			cfgClasses: []string{"neutral", "option", "empty"}, cfgMin: 1, cfgMax: 3, mutShare: []float64{0}, crlP: 0.3, ocspP: 0.2, errFilterP: 0.25, regP: 0.3}
 	case "C11":
 		return histProfile{wLint: 35, wRepeat: 0, wFilter: 8, wSetCfg: 22, wRead: 3, wPattern: 25, wDefaultCfg: 7,
 			cfgClasses: []string{"empty", "neutral", "neutral", "example", "option", "option", "option", "illtyped", "illtyped", "illtyped", "odd"},
-			cfgMin: 2, cfgMax: 5, mutShare: []float64{0, 0.1}, crlP: 0.6, ocspP: 0.3, errFilterP: 0.02, synthP: 0.15}
+			cfgMin: 2, cfgMax: 5, mutShare: []float64{0, 0.1}, crlP: 0.6, ocspP: 0.3, errFilterP: 0.02, synthP: 0.15, regP: 0.15}
 	case "C01":
 		return histProfile{wLint: 55, wRepeat: 0, wFilter: 20, wSetCfg: 6, wRead: 4, wPattern: 15, wDefaultCfg: 0,
-			cfgClasses: []string{"neutral", "option", "illtyped"}, cfgMin: 0, cfgMax: 2, mutShare: []float64{0.3, 0.5, 0.8}, crlP: 0.5, ocspP: 0.3, errFilterP: 0.05, synthP: 0.4}
+			cfgClasses: []string{"neutral", "option", "illtyped"}, cfgMin: 0, cfgMax: 2, mutShare: []float64{0.3, 0.5, 0.8}, crlP: 0.5, ocspP: 0.3, errFilterP: 0.05, synthP: 0.4, regP: 0.3}
 	}
 	// C05
 	return histProfile{wLint: 40, wRepeat: 8, wFilter: 8, wSetCfg: 6, wRead: 8, wPattern: 30, wDefaultCfg: 1,
-		cfgClasses: []string{"neutral", "option", "option", "example"}, cfgMin: 0, cfgMax: 3, mutShare: []float64{0, 0, 0.15, 0.3}, crlP: 0.35, ocspP: 0.15, errFilterP: 0.03, synthP: 0.25}
+		cfgClasses: []string{"neutral", "option", "option", "example"}, cfgMin: 0, cfgMax: 3, mutShare: []float64{0, 0, 0.15, 0.3}, crlP: 0.35, ocspP: 0.15, errFilterP: 0.03, synthP: 0.25, regP: 0.15}
 }
 
 type histGen struct {
@@ -219,7 +220,21 @@ func genHist(seed uint64, prop, tier string, audit bool, mode string) *Plan {
 	if g.Chance(0.7) {
 		hg.emitFilter(g.Intn(len(hg.mregs)))
 	}
+	// late registration: in a share of the runs one to three late probes are registered through the
+	// public API somewhere in the middle of the history (after listings, filters and lint calls)
+	regAt := map[int]bool{}
+	if g.Chance(prof.regP) && !audit {
+		for k := g.Range(1, 3); k > 0; k-- {
+			regAt[g.Range(3, nOps)] = true
+		}
+	}
+	p.Knobs["late_registrations"] = len(regAt)
 	for len(p.Ops) < nOps {
+		if regAt[len(p.Ops)] {
+			delete(regAt, len(p.Ops))
+			hg.emitRegister()
+			continue
+		}
 		w := []int{prof.wLint, prof.wRepeat, prof.wFilter, prof.wSetCfg, prof.wRead, prof.wPattern, prof.wDefaultCfg}
 		switch g.weighted(w) {
 		case 0:
@@ -408,6 +423,57 @@ func (hg *histGen) emitLint(obj, reg int, fresh bool) {
 		op.Perm = g.U64() | 1
 	}
 	hg.p.Ops = append(hg.p.Ops, op)
+}
+
+// emitRegister: look at the registry (so that whatever it caches is warm), register a late probe,
+// then filter and lint so that the new lint has to show up everywhere the model says it does.
+func (hg *histGen) emitRegister() {
+	g := hg.g
+	p := hg.p
+	k := g.Intn(len(lateProbeDefs))
+	d := lateProbeDefs[k]
+	if _, ok := hg.meta.ByName[d.Name]; ok {
+		hg.emitLint(g.Intn(len(p.Objects)), 0, false)
+		return
+	}
+	// an object of the probe's kind, if the run has one
+	obj := -1
+	for _, i := range g.Perm(len(p.Objects)) {
+		if p.Objects[i].Kind == d.Kind {
+			obj = i
+			break
+		}
+	}
+	if g.Chance(0.7) {
+		p.Ops = append(p.Ops, Op{K: "names", Reg: 0})
+	}
+	if obj >= 0 && g.Chance(0.8) {
+		hg.emitLint(obj, 0, false)
+	}
+	p.Ops = append(p.Ops, Op{K: "register", R: k, Name: d.Name})
+	hg.meta.addLate(d)
+	hg.mregs[0].Sel[d.Name] = true
+	if obj >= 0 {
+		hg.emitLint(obj, 0, g.Chance(0.3))
+	}
+	if len(hg.mregs) < 6 && g.Chance(0.8) {
+		var o *FilterOpts
+		switch g.Intn(4) {
+		case 0:
+			o = &FilterOpts{IncludeNames: []string{d.Name}}
+		case 1:
+			o = &FilterOpts{IncludeSources: []string{string(d.Source)}}
+		case 2:
+			re := "zsimprobe_late"
+			o = &FilterOpts{NameFilter: &re}
+		default:
+			o = &FilterOpts{ExcludeSources: []string{"Mozilla"}}
+		}
+		c := hg.emitFilterOpts(0, o)
+		if obj >= 0 && c >= 0 {
+			hg.emitLint(obj, c, false)
+		}
+	}
 }
 
 func (hg *histGen) emitSetCfg(reg int) {
